@@ -126,7 +126,11 @@ func Finalizing(ctx interface{}) error {
 
 		bjob, err := context.JobStore.GetJob(tracker.GetJobID(ethereum.BusyBroadcasting))
 		if err != nil {
-			return errors.Wrap(err, "failed to get job")
+			// The job store is local to this node (a witness that joined or lost
+			// its store after the broadcast has no such job): returning an error
+			// here made the caller skip writing the state change that every
+			// other node writes.
+			return nil
 		}
 
 		if !bjob.IsDone() || bjob.IsFailed() {
